@@ -53,6 +53,16 @@ CHECKS = {
              "fold of the updates (array equality by skolem index); exactly one STATQ per STATP, protocol-range sequence.",
         note="Bounded: <=2 (quick) / <=3 (thorough) messages of 0..3 changes, refresh <=3 bytes, pending list <=2.",
         ref="5/C05"),
+    "C06": dict(
+        text="Real GeckoAsyncUdpProtocol.get, wait_for_response and the real asyncio.Lock on a virtual loop: retry count, "
+             "what arrives before every poll (nothing / matching reply / foreign datagram), number of callers, their start "
+             "slots and which requests are answered are symbolic choices explored exhaustively; transmissions <= retry "
+             "count, each attempt freshly built, the handler is returned iff a reply was delivered for it, completion "
+             "within retry x (timeout+pause+poll), one request in flight, FIFO service, all callers complete; the five "
+             "connection gates with a symbolic real ping age.",
+        note="Bounded: retry <= 2/3, <= 2/3 callers, timeouts scaled to 3 polls; loop stalls not modelled as unbounded "
+             "delays.",
+        ref="5/C06"),
     "C11": dict(
         text="Construction of the real GeckoAsyncFacade for all 895 shipped combinations (concrete, maximally wired block); "
              "then, per representative of every facade-relevant table signature, the block is replaced by a fully symbolic "
